@@ -32,9 +32,14 @@
     ** Exchange format (the Go side is harness/c14.go and encodes the same way)
     case   = (flags (branchspec ...) (op ...))
       flags      : 0 normal | 1 the transaction is never created (every op must fail)
+                   | 2 as 0, but the implementation side runs the COMMANDS `wrgl transaction commit` /
+                     `discard` on a real repository directory (badger + sqlite); same model
       branchspec = (hist staged late other)        branch index = position in the list
         hist   : 0 new branch | 1 one plain commit | 2 two plain commits
                  | 3 one plain commit + one commit landed by an earlier, committed transaction
+                 | 4 one plain commit + TWO head updates logged with THE transaction's id (outside
+                     [pre]: what a double-logging commit leaves; GetTransactionLogs must report the
+                     newest, Commit then treats the branch as landed)
         staged : () | (t)   staged in THE transaction with a fresh commit of table id t
         late   : 0 | 1      a plain commit lands on the branch after staging
         other  : () | (t)   staged in another, in-progress transaction with table id t
@@ -42,7 +47,10 @@
          | (2 mode n perm) Discard with a fault | (3 perm) Discard
          | (4 half victim perm) Commit while ONE SQL statement inside SetWithLog of heads/<victim>
            fails (half 0: the reflogs insert, 1: the refs upsert; SQLite trigger below the
-           ref.Store method).  Model: SetWithLog is atomic ([run_setwithlog_fault]).  How many
+           ref.Store method), or (half 2) the UPDATE of the transactions row (status flip) fails
+         | (5 half victim perm) Discard while the DELETE of the staged ref of <victim> (half 0) or
+           of the transactions row (half 1) fails; after half 0, while the transaction is still
+           in progress, nrefs is 9 and snap is () (how many refs went first is the store's order).  Model: SetWithLog is atomic ([run_setwithlog_fault]).  How many
            other branches landed before the victim depends on the enumeration order: from this
            op on, while not all branches have landed, moved and newobjs are 9 and snap is ()
         mode 0: the n-th (0-based) and all later mutating store calls fail (crash: state = prefix)
@@ -62,7 +70,8 @@
       nrefs   : number of staged refs txs/<id>/.. of the transaction still present
       snap    : () while 0 < moved < number of staged branches or 0 < nrefs < that number (WHICH
                 branches moved / WHICH refs are deleted depends on the enumeration order), else
-                ((head ...) (log ...) (stagedref ...) (otherref ...)) per branch, with
+                ((head ...) (log ...) (stagedref ...) (otherref ...) (txlog ...)) per branch, with
+                txlog = () | (chain): NewOID that GetTransactionLogs reports for heads/<b>,
                 head = () | (chain), chain = ((table nthis nother) ... root) or ... 9) if an object
                 is missing; log = ((old new txflag) ... newest first), txflag 0 none | 1 this tx | 2 other;
                 stagedref/otherref = () | (table) *)
@@ -185,6 +194,22 @@ Fixpoint swl_index (b : branch) (ws : list write) : nat :=
   end.
 Definition run_setwithlog_fault (victim : branch) (p : plan) (s : state) : state * res :=
   run_upto (swl_index victim (fst p)) p s.
+
+(** the same for any one write chosen by a predicate (the status flip, the Delete of one staged
+    ref, DeleteTransaction): single SQL statements / transactions, atomic. *)
+Fixpoint cut_index (f : write -> bool) (ws : list write) : nat :=
+  match ws with
+  | [] => 0%nat
+  | w :: r => if f w then 0%nat else S (cut_index f r)
+  end.
+Definition run_write_fault (f : write -> bool) (p : plan) (s : state) : state * res :=
+  run_upto (cut_index f (fst p)) p s.
+Definition is_swl (b : branch) (w : write) : bool :=
+  match w with WSetWithLog b' _ _ => b' =? b | _ => false end.
+Definition is_updtx (w : write) : bool := match w with WUpdateTx _ _ => true | _ => false end.
+Definition is_delstaged (b : branch) (w : write) : bool :=
+  match w with WDelStaged _ b' => b' =? b | _ => false end.
+Definition is_deltx (w : write) : bool := match w with WDelTx _ => true | _ => false end.
 
 (** ** transaction.Commit *)
 (* GetTransactionLogs(id)[heads/b].NewOID : newest entry of b's reflog carrying the txid *)
@@ -409,6 +434,11 @@ Definition stage (id : txid) (b : branch) (t : N) (s : state) : state :=
 Definition new_tx (id : txid) (s : state) : state :=
   mk_state (heads s) (logs s) (staged s) (upd (txs s) id (Some InProgress)) (stored s).
 
+(* a head update logged with THE transaction's id outside Commit (hist 4: two of them on one ref) *)
+Definition logged_commit (b : branch) (t : N) (s : state) : state :=
+  let c := mk_commit t t [] (heads s b) in
+  apply_all [WPutCommit c; WSetWithLog b c (Some ID_ME)] s.
+
 Definition ord_id : order := fun l => l.
 Definition ord_by (perm : list N) : order := fun l =>
   flat_map (fun b => filter (fun e => fst e =? b) l) perm ++
@@ -437,6 +467,8 @@ Definition setup (flags : N) (bs : list bspec) : state :=
   let s := fst (run_full (tx_commit ord_id ID_OLD s) s) in
   let s := if flags =? 1 then s else new_tx ID_ME s in
   let s := new_tx ID_OTHER s in
+  let s := fold_steps ibs (fun '(i, b) s =>
+             if b_hist b =? 4 then logged_commit i (base i + 2) (logged_commit i (base i + 1) s) else s) s in
   let s := fold_steps ibs (fun '(i, b) s =>
              let s := match b_staged b with
                       | Some t => if flags =? 1 then s else stage ID_ME i t s
@@ -470,7 +502,8 @@ Definition snapshot (k : nat) (s : state) : tree :=
   Node [ t_list (fun b => t_opt (t_chain s) (heads s b)) bs;
          t_list (fun b => t_list (t_logent s) (logs s b)) bs;
          t_list (fun b => t_opt (fun c => Leaf (c_table c)) (lookup b (staged s ID_ME))) bs;
-         t_list (fun b => t_opt (fun c => Leaf (c_table c)) (lookup b (staged s ID_OTHER))) bs ].
+         t_list (fun b => t_opt (fun c => Leaf (c_table c)) (lookup b (staged s ID_OTHER))) bs;
+         t_list (fun b => t_opt (t_chain s) (tx_log_new ID_ME (logs s b))) bs ].
 
 Definition moved_count (k : nat) (s0 s : state) : nat :=
   length (filter (fun b => negb (opt_commit_eqb (heads s b) (heads s0 b))) (map N.of_nat (seq 0 k))).
@@ -487,53 +520,65 @@ Definition newobj_count (s0 s : state) : nat :=
 Definition t_res (masked : bool) (r : res) : tree :=
   if masked then Leaf 3 else match r with ROk => Leaf 0 | RErr => Leaf 1 end.
 
-Definition observe (k : nat) (s0 s : state) (masked amb tamb : bool) (r : res) : tree :=
+(* staged branches that the transaction still has to land: not already logged with its id *)
+Definition todo_count (s0 : state) : nat :=
+  length (filter (fun e => match tx_log_new ID_ME (logs s0 (fst e)) with None => true | Some _ => false end)
+                 (staged s0 ID_ME)).
+
+Definition observe (k : nat) (s0 s : state) (masked amb tamb damb : bool) (r : res) : tree :=
   let mv := moved_count k s0 s in
-  let nst := length (staged s0 ID_ME) in
+  let nst := todo_count s0 in
+  let nrefs := length (staged s0 ID_ME) in
   let sc := length (staged s ID_ME) in
   let part := negb (Nat.eqb mv nst) in
+  let dpart := (damb && match txs s ID_ME with Some InProgress => true | _ => false end)%bool in
   Node [ t_res masked r;
          Node [if (tamb && part)%bool then Leaf 9 else t_nat mv;
                if ((amb || tamb) && part)%bool then Leaf 9 else t_nat (newobj_count s0 s);
-               t_status (txs s ID_ME); t_nat sc];
-         if ((Nat.eqb mv 0 && negb tamb || Nat.eqb mv nst) && (Nat.eqb sc 0 || Nat.eqb sc nst))%bool
+               t_status (txs s ID_ME);
+               if dpart then Leaf 9 else t_nat sc];
+         if ((Nat.eqb mv 0 && negb tamb || Nat.eqb mv nst) && (Nat.eqb sc 0 || Nat.eqb sc nrefs) && negb dpart)%bool
          then Node [snapshot k s] else Node [] ].
 
 Inductive sop :=
 | SCommitF (mode : N) (n : nat) (perm : list N) | SCommit (perm : list N)
 | SDiscardF (mode : N) (n : nat) (perm : list N) | SDiscard (perm : list N)
-| SCommitT (victim : branch) (perm : list N).
+| SCommitT (half : N) (victim : branch) (perm : list N)
+| SDiscardT (half : N) (victim : branch) (perm : list N).
 Definition d_sop (t : tree) : sop :=
   match N.to_nat (d_N (d_nth 0 t)) with
   | 0%nat => SCommitF (d_N (d_nth 1 t)) (d_nat (d_nth 2 t)) (d_list d_N (d_nth 3 t))
   | 1%nat => SCommit (d_list d_N (d_nth 1 t))
   | 2%nat => SDiscardF (d_N (d_nth 1 t)) (d_nat (d_nth 2 t)) (d_list d_N (d_nth 3 t))
   | 3%nat => SDiscard (d_list d_N (d_nth 1 t))
-  | _ => SCommitT (d_N (d_nth 2 t)) (d_list d_N (d_nth 3 t))
+  | 4%nat => SCommitT (d_N (d_nth 1 t)) (d_N (d_nth 2 t)) (d_list d_N (d_nth 3 t))
+  | _ => SDiscardT (d_N (d_nth 1 t)) (d_N (d_nth 2 t)) (d_list d_N (d_nth 3 t))
   end.
 
-Fixpoint run_script (k : nat) (s0 s : state) (masked tamb : bool) (nf : nat) (ops : list sop) : list tree :=
+Fixpoint run_script (k : nat) (s0 s : state) (masked tamb damb : bool) (nf : nat) (ops : list sop) : list tree :=
   match ops with
   | [] => []
   | o :: ops' =>
       let mode2 := match o with SCommitF m _ _ | SDiscardF m _ _ => m =? 2 | _ => false end in
-      let nf := match o with SCommitF _ _ _ | SCommitT _ _ => S nf | _ => nf end in
-      let tamb := match o with SCommitT _ _ => true | _ => tamb end in
+      let nf := match o with SCommitF _ _ _ | SCommitT _ _ _ => S nf | _ => nf end in
+      let tamb := match o with SCommitT h _ _ => if h =? 2 then tamb else true | _ => tamb end in
+      let damb := match o with SDiscardT h _ _ => if h =? 0 then true else damb | _ => damb end in
       let p := match o with
-               | SCommitF _ _ perm | SCommit perm | SCommitT _ perm => tx_commit (ord_by perm) ID_ME s
-               | SDiscardF _ _ perm | SDiscard perm => tx_discard (ord_by perm) ID_ME s
+               | SCommitF _ _ perm | SCommit perm | SCommitT _ _ perm => tx_commit (ord_by perm) ID_ME s
+               | SDiscardF _ _ perm | SDiscard perm | SDiscardT _ _ perm => tx_discard (ord_by perm) ID_ME s
                end in
       if mode2 then
         (* a failing read: not predicted; the model continues from "nothing happened",
            which by C14_all_or_completable gives the same state after the next clean run *)
-        Node [Leaf 3] :: run_script k s0 s true tamb nf ops'
+        Node [Leaf 3] :: run_script k s0 s true tamb damb nf ops'
       else
         let '(s', r) := match o with
                         | SCommitF _ n _ | SDiscardF _ n _ => run_upto n p s
-                        | SCommitT v _ => run_setwithlog_fault v p s
+                        | SCommitT h v _ => run_write_fault (if h =? 2 then is_updtx else is_swl v) p s
+                        | SDiscardT h v _ => run_write_fault (if h =? 0 then is_delstaged v else is_deltx) p s
                         | _ => run_full p s
                         end in
-        observe k s0 s' masked (2 <=? nf)%nat tamb r :: run_script k s0 s' masked tamb nf ops'
+        observe k s0 s' masked (2 <=? nf)%nat tamb damb r :: run_script k s0 s' masked tamb damb nf ops'
   end.
 
 Definition run_C14 (c : tree) : tree :=
@@ -541,4 +586,4 @@ Definition run_C14 (c : tree) : tree :=
   let bs := d_list d_bspec (d_nth 1 c) in
   let ops := d_list d_sop (d_nth 2 c) in
   let s0 := setup flags bs in
-  Node (run_script (length bs) s0 s0 false false 0 ops).
+  Node (run_script (length bs) s0 s0 false false false 0 ops).
